@@ -40,9 +40,36 @@ class CW:
                 return cands[0]["name"]
         raise AnalysisError("anchor missing: struct utils::RcInner")
 
+    def _feasible(self, p):
+        """a path that takes `new.as_raw() == old.as_raw()` although `new` adds or removes a constant non-zero number of shares of
+        `old` cannot happen (a count field changed is a word changed)"""
+        for e in p.events:
+            if e.kind != "cond" or e.value != 1 or not (isinstance(e.term, tuple) and e.term[0] == "bin" and e.term[1] == "Eq"):
+                continue
+            a, b_ = self.unraw(e.term[2]), self.unraw(e.term[3])
+            if a is None or b_ is None:
+                continue
+            for new, cur in ((a, b_), (b_, a)):
+                base, ops = self.parse_state(new)
+                cbase, cops = self.parse_state(cur)
+                if cops or base != cbase:
+                    continue
+                net = {"strong": 0, "weak": 0}
+                sym = False
+                for (bn, arg) in ops:
+                    c = const_of(arg)
+                    if bn in ("add_strong", "sub_strong", "add_weak"):
+                        if c is None:
+                            sym = True
+                        else:
+                            net["weak" if bn == "add_weak" else "strong"] += c if bn != "sub_strong" else -c
+                if not sym and (net["strong"] != 0 or net["weak"] != 0):
+                    return False
+        return True
+
     def paths(self, fname):
         if fname not in self._paths:
-            self._paths[fname] = self.ex.paths(self.prog.body(fname))
+            self._paths[fname] = [p for p in self.ex.paths(self.prog.body(fname)) if self._feasible(p)]
         return self._paths[fname]
 
     def paths2(self, fname):
@@ -52,7 +79,7 @@ class CW:
         if key not in self._paths:
             if not hasattr(self, "ex2"):
                 self.ex2 = Exec(self.prog, unroll=2)
-            self._paths[key] = self.ex2.paths(self.prog.body(fname))
+            self._paths[key] = [p for p in self.ex2.paths(self.prog.body(fname)) if self._feasible(p)]
         return self._paths[key]
 
     # ---------------------------------------------------------------- raw MIR scan of accesses
